@@ -122,7 +122,7 @@ func configShape() ([]cfgLeaf, []cfgLevel) {
 	return leaves, levels
 }
 
-var c16Values = []string{"plain", "${V}", "pre-$V-post", "  $E  ", "  padded  ", "${project.version}/${dist-name}", "~/keys/k", "a$$b", "${V:-fallback}", "${UNSET:-fallback}-x"}
+var c16Values = []string{"plain", "${V}", "pre-$V-post", "  $E  ", "  padded  ", "${project.version}/${dist-name}", "~/keys/k", "a$$b", "${V:-fallback}", "${UNSET:-fallback}-x", "arm"}
 
 // c16ValuesThorough: further shapes - a bare variable name, brace/percent look-alikes, doubled and adjacent
 // references, '$' at the end, an unset variable, references padded with blanks, non-ASCII text.
@@ -209,6 +209,14 @@ func init() {
 				}
 			}
 			for present := uint(0); present < 16; present++ {
+				if present == 0 {
+					// the entry points that read the process environment itself, with values of awkward shape in it
+					for _, ep := range []string{"Parse", "ParseFile"} {
+						if !yield(C16Case{Part: "procenv", Kind: ep}) {
+							return
+						}
+					}
+				}
 				if !yield(C16Case{Part: "passphrase", Present: present}) {
 					return
 				}
@@ -461,6 +469,54 @@ func checkC16(env *engine.Env, ci any) engine.Outcome {
 		out.Violations = append(out.Violations, engine.Violation{Sig: sig, Detail: fmt.Sprintf(format, a...)})
 	}
 	switch c.Part {
+	case "procenv":
+		// references answered by the process environment: the value of a variable is everything after the FIRST '='
+		vars := map[string]string{
+			"NFPM_VERIF_EQ":      "https://example.com/dl?pkg=nfpm&v=1",
+			"NFPM_VERIF_REL":     "libfoo (>= 1.2)",
+			"NFPM_VERIF_EQEQ":    "a==b=",
+			"NFPM_VERIF_LEADEQ":  "=leading",
+			"NFPM_VERIF_PLAIN":   "plain-value",
+			"NFPM_VERIF_DOLLARS": "cost $5 ${NOT_EXPANDED_AGAIN}",
+		}
+		for k, v := range vars {
+			os.Setenv(k, v)
+			defer os.Unsetenv(k)
+		}
+		d := c16Base()
+		d["homepage"] = "${NFPM_VERIF_EQ}"
+		d["vendor"] = "v:${NFPM_VERIF_EQEQ}:${NFPM_VERIF_LEADEQ}"
+		d["description"] = "${NFPM_VERIF_DOLLARS} / ${NFPM_VERIF_PLAIN}"
+		d["maintainer"] = "${NFPM_VERIF_PLAIN} <m@example.com>"
+		d["depends"] = []any{"${NFPM_VERIF_REL}", "${NFPM_VERIF_PLAIN}", "${NFPM_VERIF_UNSET_VARIABLE}", "x${NFPM_VERIF_LEADEQ}"}
+		text := fixture.Doc(d).YAML()
+		var cfg nfpm.Config
+		var err error
+		if c.Kind == "Parse" {
+			cfg, err = nfpm.Parse(strings.NewReader(text))
+		} else {
+			p := filepath.Join(env.Scratch, "c16-procenv.yaml")
+			os.WriteFile(p, []byte(text), 0o644)
+			cfg, err = nfpm.ParseFile(p)
+			os.Remove(p)
+		}
+		out.Key = "procenv:" + c.Kind
+		if err != nil {
+			viol("expand:procenv:parse-error:"+c.Kind, "%s refuses a document whose references the process environment answers: %v\n%s", c.Kind, err, text)
+			return out
+		}
+		want := map[string]string{"homepage": vars["NFPM_VERIF_EQ"], "vendor": "v:a==b=:=leading", "description": vars["NFPM_VERIF_DOLLARS"] + " / plain-value", "maintainer": "plain-value <m@example.com>"}
+		got := map[string]string{"homepage": cfg.Homepage, "vendor": cfg.Vendor, "description": cfg.Description, "maintainer": cfg.Maintainer}
+		for k, w := range want {
+			if got[k] != w {
+				viol("expand:procenv:"+k, "%s with the process environment %v: %s is %q, expected %q", c.Kind, vars, k, got[k], w)
+			}
+		}
+		wantDeps := []string{"libfoo (>= 1.2)", "plain-value", "x=leading"}
+		if fmt.Sprint(cfg.Depends) != fmt.Sprint(wantDeps) {
+			viol("expand:procenv:depends", "%s with the process environment %v: depends is %q, expected %q", c.Kind, vars, cfg.Depends, wantDeps)
+		}
+		return out
 	case "null":
 		d := docWith(c16Base(), c.Path, nil)
 		if c.Kind == "second" {
